@@ -2,6 +2,7 @@
 From Coq Require Import List Arith.
 Require Import JV.Model.ParallelCore JV.Proofs.ParallelInv1 JV.Proofs.ParallelTrk JV.Proofs.ParallelFrame4
                JV.Proofs.ParallelBound JV.Proofs.ParallelMisc.
+Require Import JV.Model.ParallelSync JV.Proofs.SyncFrame JV.Proofs.SyncInv JV.Proofs.SyncThm.
 Import ListNotations.
 
 (* once the abort flag is set (task failure, input failure, timeout, generator closed) no event other
@@ -46,3 +47,14 @@ Theorem C09_bound_refuted :
   noisy s = true /\ taken s - n_comp s = 14 /\ 1 * 2 + 4 * 2 = 10 /\ length (opens s) = 4 /\ pre (c s) = PreN 1.
 Proof. exact f26_witness. Qed.
 Print Assumptions C09_bound_refuted.
+
+(* the same for backends that do not retrieve results in their completion callback (Model/ParallelSync.v) *)
+Theorem C09_sync_stop_after_abort : forall s e, aborting (base s) = true -> (forall cf n f, e <> SCall cf n f) ->
+  input_fields (base (fst (sstep s e))) = input_fields (base s) /\ aborting (base (fst (sstep s e))) = true.
+Proof. exact sync_stop_after_abort. Qed.
+Print Assumptions C09_sync_stop_after_abort.
+
+Theorem C09_sync_taken_is_a_prefix : forall s, sreach s -> ifail (base s) = None ->
+  concat (submitted (base s)) ++ concat (ready (base s)) = seq 0 (taken (base s)) /\ taken (base s) <= N (base s).
+Proof. exact sync_partition. Qed.
+Print Assumptions C09_sync_taken_is_a_prefix.
